@@ -1,20 +1,17 @@
 #!/bin/bash
-# usage: sweep_harmless.sh — every behaviour-preserving change kept under harmless/ against EVERY property's quick
-# check (a harmless change must raise no alarm anywhere).  Works on $VERIF_REPO like sweep_all.sh.
+# usage: sweep_harmless.sh — every behaviour-preserving change kept under harmless/ against the whole machinery
+# (`check allslices`: extractor, every theorem of every property, every correspondence slice of every property;
+# the race stress of C06 is not part of it).  A harmless change should be met with silence.
 HERE=$(cd $(dirname $0)/.. && pwd)
 export VERIF_REPO=${VERIF_REPO:-${VP_RUN_REPO:-/repo}}
-export VERIF_EVIDENCE_DIR=$(mktemp -d) VERIF_REPLAY_DIR=$(mktemp -d)
 cd $HERE && ./check prepare >/dev/null 2>&1
 for d in $HERE/harmless/*/; do
   id=$(basename $d)
   ( cd $VERIF_REPO && git apply $d/patch.diff ) || { echo "$id APPLY-FAILED"; continue; }
   ( cd $VERIF_REPO && GOFLAGS=-mod=mod GOPROXY=off GOSUMDB=off GOTOOLCHAIN=local go test -vet=off -count=1 ./... >/dev/null 2>&1 ) || echo "$id SUITE-FAILS"
-  for p in C01 C02 C03 C04 C05 C06 C07 C08 C09 C10 C11 C12 C13 C14 C15 C16 C17 C18 C19; do
-    res=$(cd $HERE && ./check $p quick 2>&1 | tail -1)
-    case "$res" in OK*) ;; *) echo "$id $p $res"; cp $VERIF_REPLAY_DIR/$p-quick-1.json $HERE/harmless/$id.$p.replay.json 2>/dev/null;; esac
-  done
-  echo "$id done"
+  out=$(cd $HERE && ./check allslices quick 2>&1 | grep "^NOTICED\|^ALLSLICES")
+  echo "$id $(echo "$out" | tail -1)"
+  echo "$out" | grep "^NOTICED" | sed "s/^/   $id /" | cut -c1-400
   git -C $VERIF_REPO checkout -- . && git -C $VERIF_REPO clean -fdq
 done
-rm -rf $VERIF_EVIDENCE_DIR $VERIF_REPLAY_DIR
 echo SWEEP-DONE
